@@ -618,7 +618,7 @@ fn verify_nested(
     verify_threshold_constraints(&layout, &link_files)?;
 
     // Reduce link files
-    let mut reduced_link_files = reduce_chain_links(link_files)?;
+    let reduced_link_files = reduce_chain_links(link_files)?;
 
     let steps = layout
         .steps
@@ -629,8 +629,11 @@ fn verify_nested(
     verify_all_item_rules(&steps, &reduced_link_files)?;
 
     // Execute inspection commands (generates link metadata for each inspection)
+    // (the steps' own links stay as they are: the summary is made of them,
+    // also when an inspection carries the name of a step)
     let inspection_link_files = run_all_inspections(&layout)?;
-    reduced_link_files.extend(inspection_link_files);
+    let mut combined_link_files = reduced_link_files.clone();
+    combined_link_files.extend(inspection_link_files);
 
     let inspects = layout
         .inspect
@@ -639,7 +642,7 @@ fn verify_nested(
         .collect();
 
     // Verify artifact rules for inspections of layout
-    verify_all_item_rules(&inspects, &reduced_link_files)?;
+    verify_all_item_rules(&inspects, &combined_link_files)?;
 
     get_summary_link(&layout, &reduced_link_files, step_name.unwrap_or(""))
 }
